@@ -258,12 +258,14 @@ def compare_leg(
     py_map = {sdk.prop_name(p): p for p in facts.props}
     lang_map = xsdk.Names(leg).prop_map(facts)
 
+    state: Dict[int, Any] = {}  # case index -> reference record actually used
+
     def witness(case: Optional[Case], **more: Any) -> Dict[str, Any]:
         w: Dict[str, Any] = {"leg": leg, "model": name, "text": text}
         if case is not None:
             w.update(
                 case=case.idx, kind=case.kind, cls=case.cls, document=case.text[:4000],
-                python=harness.jsonable(case.ref),
+                python=harness.jsonable(state.get(case.idx, case.ref)),
                 other=harness.jsonable(res.by_case.get(case.idx)),
             )
             if case.inst is not None:
@@ -298,6 +300,8 @@ def compare_leg(
                         witness(None, enum=enum, literal=lit, python=value, other=entry),
                     )
         for const, entry in want["constants"].items():
+            if "__unavailable__" in got["constants"]:
+                break  # Constants.java did not compile; reported as build failure
             chk.count(f"{leg}_constants_compared")
             other = got["constants"].get(const)
             if other != entry:
@@ -333,9 +337,18 @@ def compare_leg(
         chk.count(counter_name)
         if json_leg:
             ref = case.ref
+            if leg == "typescript" and case.kind == "mutant":
+                stripped = xsdk.strip_unknown_properties(facts, case.cls, case.doc)
+                if stripped != case.doc:
+                    # documented design of the TypeScript SDK: unknown members are ignored
+                    chk.count("typescript_mutants_judged_without_their_unknown_properties")
+                    ref = py_document(
+                        sdk, case.cls, json.dumps(stripped, ensure_ascii=True, allow_nan=False)
+                    )
         else:
             # C++: instance built from the abstract instance; reference = the built object
             ref = {"accepted": True, "errors": case.built_errors, "json": None}
+        state[case.idx] = ref
         distinct = None
         # ---- accept / reject
         if json_leg:
@@ -411,25 +424,47 @@ def compare_leg(
                     witness(case, unknown=unknown, unknown_python=unknown_py),
                 )
             elif want != got:
-                for kind, diff in (("missing-error", want - got), ("extra-error", got - want)):
-                    for (path, cause), _ in diff.items():
-                        same_cause_elsewhere = any(
-                            c == cause for (p, c) in (got if kind == "missing-error" else want)
-                            if p != path
-                        ) and not any(
-                            p == path and c == cause
-                            for (p, c) in (got if kind == "missing-error" else want)
+                missing, extra = want - got, got - want
+                explained = collections.Counter()
+                for (path, cause), n in missing.items():
+                    feature = invariant_feature(pm, cause)
+                    # the same cause reported on a proper prefix of the expected path?
+                    shorter = [
+                        (p, c) for (p, c) in extra
+                        if c == cause and len(p) < len(path) and tuple(path[: len(p)]) == tuple(p)
+                        and extra[(p, c)] - explained[(p, c)] > 0
+                    ]
+                    if shorter:
+                        explained[shorter[0]] += n
+                        last = path[-1]
+                        sub = (
+                            "path-truncated/index-segment-lost" if isinstance(last, int)
+                            else "path-truncated/property-segment-lost"
                         )
-                        feature = invariant_feature(pm, cause)
-                        sub = "path-differs" if same_cause_elsewhere else kind
-                        chk.violation(
-                            f"{leg}/verification/{sub}/{feature}",
-                            witness(
-                                case, path=list(path), cause=cause,
-                                python_errors=[[list(p), c] for (p, c) in want],
-                                other_errors=[[list(p), c] for (p, c) in got],
-                            ),
-                        )
+                        key = f"{leg}/verification/{sub}"
+                    elif any(c == cause for (p, c) in extra):
+                        key = f"{leg}/verification/path-differs/{feature}"
+                    else:
+                        key = f"{leg}/verification/missing-error/{feature}"
+                    chk.violation(
+                        key,
+                        witness(
+                            case, path=list(path), cause=cause,
+                            python_errors=[[list(p), c, k] for (p, c), k in want.items()],
+                            other_errors=[[list(p), c, k] for (p, c), k in got.items()],
+                        ),
+                    )
+                for (path, cause), n in (extra - explained).items():
+                    if any(c == cause for (p, c) in missing):
+                        continue  # reported above as path-differs
+                    chk.violation(
+                        f"{leg}/verification/extra-error/{invariant_feature(pm, cause)}",
+                        witness(
+                            case, path=list(path), cause=cause,
+                            python_errors=[[list(p), c, k] for (p, c), k in want.items()],
+                            other_errors=[[list(p), c, k] for (p, c), k in got.items()],
+                        ),
+                    )
         # ---- JSON
         if json_leg:
             if rec.get("serialize_crash") or ref.get("serialize_crash"):
@@ -522,6 +557,14 @@ def check_model(
                     )
                 continue
             chk.count(f"{leg}_models_compared")
+            if res.partial_build_failure:
+                chk.hist(f"{leg}_units_left_out_after_build_failure", ",".join(res.excluded_units))
+                for where, message in compiler_errors(res.partial_build_failure):
+                    chk.violation(
+                        f"{leg}/build-failed/{where}|{xsdk.message_class(message)}",
+                        {"leg": leg, "model": name, "text": text,
+                         "detail": res.partial_build_failure[-4000:]},
+                    )
             if res.sanitizer_reports:
                 chk.count(f"{leg}_sanitizer_reports", res.sanitizer_reports)
                 chk.violation(
@@ -539,6 +582,17 @@ def check_model(
         sdk.close()
 
 
+SDK_UNITS = {
+    "Jsonization.java", "Xmlization.java", "Constants.java", "Verification.java",
+    "Stringification.java", "Reporting.java", "Copying.java", "Driver.java",
+    "driver.cpp", "driver.ts", "common.cpp", "common.hpp", "constants.cpp", "constants.hpp",
+    "types.cpp", "types.hpp", "verification.cpp", "verification.hpp", "iteration.cpp",
+    "iteration.hpp", "stringification.cpp", "stringification.hpp", "wstringification.cpp",
+    "wstringification.hpp", "visitation.cpp", "visitation.hpp", "pattern.cpp", "pattern.hpp",
+    "revm.cpp", "revm.hpp", "enhancing.hpp",
+}
+
+
 def compiler_errors(text: str) -> List[Tuple[str, str]]:
     """Distinct (file, message) pairs of javac / g++ diagnostics; else the first line."""
     import re
@@ -549,7 +603,10 @@ def compiler_errors(text: str) -> List[Tuple[str, str]]:
         if m:
             # identifiers of the model are not part of the mechanism
             message = re.sub(r"[\u2018'`][^\u2019'`]*[\u2019'`]", "Q", m.group(2))
-            pair = (m.group(1), message)
+            unit = m.group(1)
+            if unit not in SDK_UNITS:
+                unit = "<model type>." + unit.rsplit(".", 1)[1]
+            pair = (unit, message)
             if pair not in found:
                 found.append(pair)
     if not found:
@@ -655,6 +712,7 @@ def main(argv) -> int:
     chk.assume("integers within +-2^53 and finite floats only (JavaScript numbers, JSON)")
     chk.assume("JSON numbers compare after conversion to double; the sign of zero is not judged")
     chk.assume("messages of rejected documents are not compared, only accept/reject")
+    chk.assume("TypeScript ignores unknown object members by documented design (NOTE in the emitted de-serialiser): its verdict on a mutated document is compared with the Python verdict on the same document without those members")
     chk.assume("Java: the constant prefix 'Invariant violated:\\n' of every cause is stripped before causes are compared (design of the Java/C# SDKs)")
     chk.assume("C++: no JSON leg (nlohmann/json.hpp absent): instances are built through the generated constructors; verification, enumerations and constants are compared")
     chk.assume("models restricted to what all four generators accept (see xsdk.CommonGenerator); odd-numbered MMG models additionally use float properties, len(bytearray), integer sets and primitive constants, on which the Java leg is known to fail; models refused by one generator are skipped for that leg and counted")
